@@ -126,6 +126,13 @@ pub fn verif_arc_str(s: &str) -> (r: Arc<str>) ensures r@ == s@ { s.into() }
 // anyhow::Context::with_context on an Option, minus the message (R27)
 pub fn verif_with_context<T>(o: Option<T>) -> (r: Result<T>) ensures o is Some ==> r == Ok::<T, Error>(o->Some_0), o is None ==> r is Err
 { match o { Some(v) => Ok(v), None => Err(verif_error()) } }
+// bridge: the interpretation under which the contracts that the conversion unit (contracts/conv_prelude.rs) ASSUMES for its opaque Vfs
+// (file_for_uri, line_map_for_file) are proved for the real functions - tools/extract_vfs.py copies them textually onto wrappers (`bridge_conv_*`)
+impl Vfs {
+    pub open spec fn live_i(&self, file: FileId) -> bool { self.files@.dom().contains(file.0 as int) }
+    pub open spec fn known_i(&self, uri: &Url) -> Option<FileId> { if self.local_file_set.files().contains_key(uri.vpath()) { Some(self.local_file_set.files()[uri.vpath()]) } else { None } }
+    pub open spec fn lm_i(&self, file: FileId) -> LineMap { *self.files@[file.0 as int].1 }
+}
 impl Vfs {
     // every path the file set knows maps to a live slab key, and the two maps of the file set agree
     pub open spec fn wf(&self) -> bool {
